@@ -157,7 +157,7 @@ def hyp_cases(draw, tier):
         # directed: make a clone below a sibling of its first occurrence
         if len(spec) >= 2:
             a, b = spec[0], spec[1]
-            if all(c[0] != a[0] for c in b[1]) and not (profile == "fs" and b[0] in serial.PERSON_LABELS):
+            if all(c[0] != a[0] for c in b[1]) and not (profile in ("fs", "fs_plain") and b[0] in serial.PERSON_LABELS):
                 b[1].insert(0, [a[0], []] + ([dict(a[2])] if len(a) > 2 and a[2] else []))
                 gen.fix_sibling_ids(spec)
     configs = draw(st.lists(serial.config(profile), min_size=3, max_size=6))
